@@ -58,6 +58,18 @@ CLAIMS["C17"] = dict(
     technique=KANI + "; CBMC pointer/bounds checks over histories with explicit metadata-invariant assertions",
     ref="DESIGN.md §5 C17",
 )
+CLAIMS["C01"] = dict(
+    text="(i) LWE secret-key encryption followed by decryption, through the real poulpy-core code on a marker module (no DFT involved): for concrete ternary secrets and symbolic message digits, mask words and error (within the configured bound), with a scratch of exactly the declared size and symbolic contents, decrypt(encrypt(m)) - m is e*2^-k with |e| <= bound, and e is exactly the sampled error (injected once, at 2^-k). (ii) the error sampler kernels enforce the bound for every bound in [1,2^62) and every draw (incl. NaN/inf), fill overwrites / add adds; (iii) the error lands on limb ceil(k/b)-1 of the selected column with scale exactly 2^((limb+1)b-k).",
+    note="GLWE secret-/public-key and compressed encryption run through DFT products and are outside (DESIGN §2.4: the kernel-substitution backend does not finish). Randomness is stubbed at Source::next_u64n and at the Gaussian limb kernel; f64::exp2/log2 replaced by exact/constant models; LWE dimension 2, limb counts <= 3.",
+    technique=KANI + "; randomness replaced by symbolic stubs, exact-size symbolic scratch",
+    ref="DESIGN.md §5 C01",
+)
+CLAIMS["C06"] = dict(
+    text="Deterministic core of fresh randomness: the uniform digit kernel maps the masked random word bijectively onto [-2^(b-1),2^(b-1)) for every radix 1..63 and consumes exactly one word per coefficient (its rejection loop is dead for the arguments the call site passes); vector-level uniform fill writes every limb of the selected column only; the Gaussian kernels respect the bound and the error is placed on the limb and with the scale that put it at 2^-k (shared with C01); through the LWE round trip the decryption error equals the sampled error exactly, so 'no error', 'error at a lower position' or 'error added twice' are violations.",
+    note="Statistical clauses (empirical sigma, uniformity as a frequency), ChaCha8/ziggurat themselves, seed branching and the GLWE/GGLWE/GGSW encryption information flow (DFT products) are outside this family of technique / this revision.",
+    technique=KANI + "; random stream replaced by symbolic words at Source::next_u64n",
+    ref="DESIGN.md §5 C06",
+)
 NA = {}
 DEFAULT_NA = "not yet implemented in this revision (work in progress)"
 
